@@ -645,7 +645,7 @@ def decode_8n1(tx, dv):
     return out, None
 
 
-def monitor_uart(D, p, dv, nbytes, stim, rows):
+def monitor_uart(D, p, dv, nbytes, stim, rows, whole=True):
     """The property on the real AsyncSerialILA trace: the bytes an 8N1 receiver decodes from `tx` over the whole trace
     are, capture after capture, the little-endian bytes of the D consecutive (delayed) samples that followed each
     accepted trigger, in order, each once; `sampling` / `complete` as for the core.  A trigger is accepted when no
@@ -689,6 +689,8 @@ def monitor_uart(D, p, dv, nbytes, stim, rows):
             busy, start, complete, handed = True, t + 1, 0, 0
             stats["captures"] += 1
     got, err = decode_8n1([r[2] for r in rows], dv)
+    if err is not None and not whole and err[1] == "the trace ends inside a frame":
+        err = None           # a replay cut short at the failing cycle: only the bytes completely on the line are judged
     if err is not None:
         fail(err[0], "uart-framing", err[1])
         return fails, stats
@@ -704,7 +706,7 @@ def monitor_uart(D, p, dv, nbytes, stim, rows):
             fail(t0, "uart-byte", "byte %d on the line is %#04x; byte %d of recorded sample %d (little-endian) is %#04x"
                  % (n, b, n % nbytes, n // nbytes, want[n]))
             return fails, stats
-    if len(got) != len(want):
+    if whole and len(got) != len(want):
         fail(len(rows) - 1, "uart-missing-bytes", "%d bytes on the line at the end of the trace, %d samples x %d bytes were "
              "captured (the trace ends with a trigger-free tail long enough for the whole read-out)"
              % (len(got), len(expected), nbytes))
@@ -720,7 +722,11 @@ def run_uart_case(desc):
     sigs = [Signal(w, name="probe%d" % j) for j, w in enumerate(widths)]
     dut = AsyncSerialILA(signals=sigs, sample_depth=D, divisor=dv, samples_pretrigger=p, domain=dom)
     nbytes = dut.bytes_per_sample
-    stim = desc.get("stimulus") or make_uart_stimulus(D, p, dv, nbytes, total, Rng(desc["seed"]), desc.get("k", 0))
+    gen = make_uart_stimulus(D, p, dv, nbytes, total, Rng(desc["seed"]), desc.get("k", 0)) if "seed" in desc else None
+    stim = desc.get("stimulus") or gen
+    # the end-of-trace checks (everything captured is on the line) apply to whole traces only, not to a replay that
+    # the framework cut short at the failing cycle
+    whole = not desc.get("stimulus") or (gen is not None and len(stim) >= len(gen))
     stim = [[r[0] & 1, r[1] & ((1 << total) - 1)] for r in stim]
     sim_rows = []
     for r in stim:
@@ -732,7 +738,7 @@ def run_uart_case(desc):
     st = dut.ila.stream
     rows = sim.run_cycles(dut, [dut.trigger] + sigs,
                           [dut.sampling, dut.complete, dut.tx, st.valid, st.ready, st.payload], sim_rows, domain=dom)
-    fails, stats = monitor_uart(D, p, dv, nbytes, stim, rows)
+    fails, stats = monitor_uart(D, p, dv, nbytes, stim, rows, whole)
     tags = ["kind=uart", "u-depth=%d" % D, "u-divisor=%d" % dv, "u-bytes=%d" % nbytes, "u-pre=%d" % p, "u-domain=" + dom,
             "u-readouts>=2" if stats["readouts"] >= 2 else "u-readouts=%d" % stats["readouts"],
             "u-trigger-blocked" if stats["blocked"] else "u-no-blocked-trigger"]
@@ -855,7 +861,7 @@ def run_two_clocks(D, p, po, ph, rows_i, rows_o):
     return events, dut.bits_per_sample
 
 
-def monitor_cdc(D, p, events, bps):
+def monitor_cdc(D, p, events, bps, whole=True):
     """The property on the real two-clock trace: the words transferred on the output stream (valid & ready in cycles of
     the output domain) are, capture after capture, the D consecutive (delayed) samples that followed each accepted
     trigger, in order, each once, `first` on sample 0 and `last` on sample D-1; `sampling` / `complete` as for the core.
@@ -927,7 +933,7 @@ def monitor_cdc(D, p, events, bps):
                     return fails, stats
                 got += 1
     stats["out_words"] = got
-    if got != len(expected):
+    if whole and got != len(expected):
         fail(len(events) - 1, "cdc-missing-words", "%d words came out of the output stream, %d samples were captured (the trace "
              "ends with a trigger-free, always-ready tail long enough for the whole read-out)" % (got, len(expected)))
     return fails, stats
@@ -935,7 +941,13 @@ def monitor_cdc(D, p, events, bps):
 
 def run_cdc_case(desc):
     D, p, po, ph = desc["depth"], desc["pre"], desc["period_o"], desc["phase_o"]
+    whole = True
     if desc.get("stimulus"):
+        if "seed" in desc:
+            gi, go = make_cdc_stimulus(D, p, po, desc.get("rmode", 0), Rng(desc["seed"]), desc.get("k", 0))
+            whole = len(desc["stimulus"]) >= len(gi) + len(go)
+        else:
+            whole = False
         # replay: rows as piped to the model ([0, trigger, inputs, w_rdy] / [1, r_en, r_rdy, 0]); the oracle columns are
         # regenerated by the simulation, the interleaving by the clocks
         rows_i = [[r[1] & 1, r[2] & ((1 << TOTAL) - 1)] for r in desc["stimulus"] if r[0] == 0]
@@ -943,7 +955,7 @@ def run_cdc_case(desc):
     else:
         rows_i, rows_o = make_cdc_stimulus(D, p, po, desc.get("rmode", 0), Rng(desc["seed"]), desc.get("k", 0))
     events, bps = run_two_clocks(D, p, po, ph, rows_i, rows_o)
-    fails, stats = monitor_cdc(D, p, events, bps)
+    fails, stats = monitor_cdc(D, p, events, bps, whole)
     inputs, outputs = [], []
     for dom, r, o in events:
         if dom == "i":
